@@ -3,6 +3,12 @@
 import json, os
 
 CLAIMS = {
+ "C01": {
+  "text": "Partial claim. The behavioural equivalence with the graph reference semantics (exactly-once execution, numbering independence, concatenation order, gas/data-output equality) is NOT decided by static analysis. Decided clauses: graph validation (parent map, level order) dominates every site that can start a node program; an empty level while nodes remain (cycle) and invalid edge ranges are errors; every edge value used as a node index is compared with nodes.len(); the leaf interpretation table is exactly [1] -> satisfied, [2] -> data output of vm.memory, anything else -> unsatisfied, with leaf = node without edges and parents exporting (stack, memory); parent inputs are taken from the parent map in ascending order and each node runs the program of its own address. Deferral closure and the run-mode split are decided under C03.",
+  "note": "These are necessary conditions of the property; breaking any of them changes verdicts. The sufficient direction is out of reach for this technique family.",
+  "technique": "static analysis: dominance of validation over execution sites, return tables of the graph functions, match table of the leaf interpretation",
+  "design_ref": "3/C01",
+ },
  "C08": {
   "text": "Decides the dispatch and the scalar operations, for which operator, operand order and operand type in MIR are the semantics: all 62 spec ops reach the handler of the reviewed dispatch table; comparison/logic/bit ops are exactly the operator named by asm.yml's stack_out expression on (a, b) in that order with From<bool>; Add/Sub/Mul/Div/Mod are i64::checked_* with None -> error and no other integer op; Shl/Shr/ShrI have the right operand types (logical vs arithmetic) and are dominated by the 0..64 bound check; pop2 returns [below-top, top]; popN_pushM apply f to the popped words in order and push only its `?`-checked result; the error index is pc before any update; memory readers take shared references. Partial claim: data-movement ops (SwapIndex, DupFrom, Select*, Reserve, Drop, Load/Store, ranges, sets) are value-level and declined.",
   "note": "tables/dispatch.json is the reviewed dispatch table of the pinned tree. asm.yml stack_out expressions are the oracle for scalar ops.",
